@@ -45,8 +45,11 @@ def file_events_ok(w, cwd, allowed):
 def work(shard, rec):
     from cmv.lib import Lib
     lib = Lib()
-    scratch = os.path.join(os.environ.get("CMV_SCRATCH", "/tmp"), f"c17-{shard['idx']}")
-    os.makedirs(scratch, exist_ok=True)
+    base = os.path.join(os.environ.get("CMV_SCRATCH", "/tmp"), f"c17-{shard['idx']}")
+    dirs = [os.path.join(base, "wd-a"), os.path.join(base, "wd-b"), os.path.join(base, "wd-a", "nested")]
+    for dd in dirs:
+        os.makedirs(dd, exist_ok=True)
+    scratch = dirs[0]
     os.chdir(scratch)
     rnd = G.rng("c17", shard["seed"], shard["idx"])
     triples = G.pair_classes(rnd, shard["n"])
@@ -69,6 +72,10 @@ def work(shard, rec):
             continue
         bk, bg = rnd.choice(SP.available(b))
         large, mode, vr = rnd.random() < 0.4, i % 3, rnd.random() < 0.5
+        # the working directory changes between calls: "the working directory" is the one current at the time of the call
+        scratch = dirs[i % len(dirs)]
+        os.chdir(scratch)
+        rec.count("cwd_changes")
         case = {"text": SP.jsonable(text), "tk": k, "bg": SP.jsonable(bg), "bk": bk, "large": large, "mode": mode, "vr": vr}
         rec.ev()
         # ---- default path
@@ -148,10 +155,11 @@ def work(shard, rec):
             if bad:
                 rec.violation(f"make_readable_bulk(save_report=True) touched files other than the documented report: {bad[:4]}", case)
         for n in ALLOWED:
-            try:
-                os.remove(os.path.join(scratch, n))
-            except OSError:
-                pass
+            for dd in dirs:
+                try:
+                    os.remove(os.path.join(dd, n))
+                except OSError:
+                    pass
 
 
 LENIENT = ["rgba(0, 0, 0, 50)", (0, 0, 0, 50), [10, 20, 30, 80], "20, 40, 200, 40", "(10,20,30)", "rgb 10 20 30", (0.5, 0.5, 0.5), (1.0, 0.0, 0.0),
